@@ -230,6 +230,7 @@ def session_shape(prop, seq, config, max_checks, with_optional=False, with_worke
 
     sh = Shape(name, build, obs, initialize=False)
     sh.grid = False
+    sh.max_paths = 4000  # long sessions with the incremental optimiser: 3 verdicts per check() call
     sh.session = dict(seq=list(seq), config=config, with_optional=with_optional, with_worker=with_worker)
     return sh
 
